@@ -56,3 +56,14 @@ Example C07_nonvacuous :
   | Err _ => false
   end = true.
 Proof. vm_compute. reflexivity. Qed.
+
+(* Part 4: every instance exactly once.  The nodes of every graph that build accepts are, in order, the router
+   nodes of the router descriptors and then, per endpoint descriptor E, one endpoint node and one interface
+   node for every element of E's array (E, E_k or E_i_j; interface E_ni, E_ni_k, E_ni_i_j) -- and node names are
+   pairwise distinct (build_nodup), so every instance is named exactly once. *)
+From FV Require Import FrameProofs.
+Theorem C07_model_instances :
+  forall d g, build d = Ok g ->
+    g_nodes g = flat_map router_nodes (d_rts d) ++ flat_map endpoint_node_list (d_eps d) /\ NoDup (names g).
+Proof. intros d g H. split; [exact (build_nodes d g H)|exact (build_nodup d g H)]. Qed.
+Print Assumptions C07_model_instances.
